@@ -804,7 +804,7 @@ func (rtcmHandler *Handler) getUTCFromGalileoTime(timestamp uint) (time.Time, er
 	timeFromTimestamp, newStartOfWeek, err := getUTCFromTimestamp(
 		timestamp,
 		rtcmHandler.timestampFromPreviousGalileoMessage,
-		rtcmHandler.startOfGPSWeek)
+		rtcmHandler.startOfGalileoWeek)
 
 	if err != nil {
 		return timeFromTimestamp, err
